@@ -1,7 +1,7 @@
 (* Props/C06.v — audited surface for property C06 (error / failure policy state machine). *)
 From Coq Require Import ZArith List Bool PrimFloat String.
 Import ListNotations.
-Require Import PyBase Solver SolverFacts SolverFacts2 SolverFacts3 SolverFacts4 SolverFacts5 SolverFacts6 SolverF SolverExamples SolverExamples2.
+Require Import PyBase Solver SolverFacts SolverFacts2 SolverFacts3 SolverFacts4 SolverFacts5 SolverFacts6 SolverFacts7 SolverF SolverExamples SolverExamples2.
 Require Import SolveAll SolveAllF SolveAllFacts SolveAllFacts2 SolveAllExamples SolveAllExamples2.
 Require Fsic.Gen.Generated.
 Open Scope Z_scope.
@@ -461,6 +461,27 @@ Theorem C06_before_hook_warning_caught sc d (o : fopts) t (s : fstate) p ps pre 
    Raise (SolutionError (Some 1))).
 Proof. exact (f_before_warning_caught sc d o t s p ps pre i x rest). Qed.
 
+(* ... and a warning in the POST-hook (after the first stopping pass k0, which ended finite, i.e. converged): SolutionError chained
+   to the warning before its statement stores; although the converging pass has run, status and iterations are NOT recorded *)
+Theorem C06_after_hook_warning_caught sc d (o : fopts) t (s : fstate) p ps k0 pre i x rest :
+  min_iter o <= max_iter o ->
+  py_pos (List.length (status s)) t = Some p -> feasible d (List.length (status s)) p = true -> offset o = 0 ->
+  errors o = ERaise -> catch_first o = true ->
+  all_finite float fisfin (get_check float fzero d (vals_of s) p) = true ->
+  lookup p sc = Some ps -> sbefore ps = [] ->
+  let ev := s_ev (List.length (status s)) sc in
+  let c0 := get_check float fzero d (vals_of s) p in
+  let N := Z.to_nat (max_iter o) in
+  find_first (stops float PrimFloat.sub PrimFloat.abs PrimFloat.ltb fisfin fzero ev d o t p c0 (vals_of s) N) 1 N = Some k0 ->
+  snd (evk float ev o t k0 (st_after float ev o t (vals_of s) (k0 - 1))) = None ->
+  all_finite float fisfin (chkseq float fzero ev d o t p c0 (vals_of s) k0) = true ->
+  safter ps = pre ++ AWarnSet i x :: rest -> no_stop pre = true ->
+  f_solve_t sc d o t s =
+  (mkState (fst (run_actions true p pre (st_after float ev o t (vals_of s) k0))) (status s) (iters s)
+           (log s ++ [EvBefore t] ++ pass_events t 1 k0 ++ [EvAfter t k0]),
+   Raise (SolutionError (Some 1))).
+Proof. exact (f_after_warning_caught sc d o t s p ps k0 pre i x rest). Qed.
+
 (* finding #5: under 'replace' the pass after a non-finite pass IS judged (against zeros) — the clause
    "a pass that starts from non-finite check values is never judged" is refuted for replace *)
 Theorem C06_replace_judged_after_nonfinite_refuted :
@@ -492,6 +513,7 @@ Print Assumptions C06_after_exception_surfaces_general.
 Print Assumptions C06_solve_t_hooks_ext.
 Print Assumptions C06_warnings_dropped_unless_raise_and_catch_first.
 Print Assumptions C06_before_hook_warning_caught.
+Print Assumptions C06_after_hook_warning_caught.
 Print Assumptions C06_solve_t_status_shape.
 Print Assumptions C06_calls_status_invariant.
 Print Assumptions C06_catch_first_no_store.
@@ -510,4 +532,5 @@ Print Assumptions ex11_warning_filter.
 Print Assumptions ex12_before_hook_warning.
 Print Assumptions ex13_replace_guard_satisfiable.
 Print Assumptions ex14_after_hook_exception_general.
+Print Assumptions ex15_after_hook_warning.
 Print Assumptions exH_history_statuses.
